@@ -71,10 +71,21 @@ pub fn hdr(out: &mut Out) {
         prev_len = l;
     }
     // encode table: the PktType values are obtained through read_gse_header (its module is private)
-    let kinds = [(0xC000u16, "complete"), (0x8000, "first"), (0x1000, "inter"), (0x4000, "end")];
     let lts = [(LabelType::SixBytesLabel, "six"), (LabelType::ThreeBytesLabel, "three"), (LabelType::Broadcast, "bc"), (LabelType::ReUse, "ru")];
-    for (kw, kname) in kinds {
-        let k = read_gse_header(kw).unwrap().1;
+    for (dbg, kname) in [("CompletePkt", "complete"), ("FirstFragPkt", "first"), ("IntermediateFragPkt", "inter"), ("EndFragPkt", "end")] {
+        // any word that decodes to this kind yields the PktType value (never unwrap a particular word:
+        // a wrong decoder is data, not a reason for the harness to die)
+        let found = (0..=65535u32).find_map(|w| match catch_unwind(|| read_gse_header(w as u16)) {
+            Ok(Some((_, k, _))) if format!("{:?}", k) == dbg => Some(k),
+            _ => None,
+        });
+        let k = match found {
+            Some(k) => k,
+            None => {
+                out.emit(&Obj::new().str("ev", "hdr_enc_run").str("kind", kname).str("lt", "six").num("len_from", 0).num("len_to", 0).num("w0", 65536).end());
+                continue;
+            }
+        };
         for (lt, lname) in &lts {
             let mut run_from = 0usize;
             let mut w0 = generate_gse_header(&k, lt, 0) as usize;
